@@ -306,7 +306,7 @@ package client
 //@   serves C18
 //@   opt nomonitor = 1
 //@   opt partial = 1
-//@   requires c != nil && msg != nil && typeis(aval(c.handshakeComplete), bool) && typeis(aval(c.isReconnecting), bool)
+//@   requires c != nil && msg != nil && flagsInit(c)
 //@   loop 0 invariant true
 //@   loop 1 invariant true
 //@   assert direct_gate at call sendDirect : [C18] !bval(aval(c.handshakeComplete)) && isHS(PayloadType(msg.Payload))
@@ -415,6 +415,8 @@ package client
 //@   opt nomonitor = 1
 //@   requires c != nil && response != nil && response.message != nil
 //@   assert sends_own at send : [C16] response != nil && response.message != nil
+
+//@ spec flagsInit(c) = typeis(aval(c.handshakeComplete), bool) && typeis(aval(c.isReconnecting), bool) && typeis(aval(c.accepted), bool)
 
 //@ spec pendingOK(c) = forall(k, 0, len(c.requests), c.requests[k] != nil)
 //@ spec notBefore(c, r, n) = forall(k, 0, n, c.requests[k] != r)
